@@ -61,8 +61,38 @@ def work(task):
     checks.check_euler(prog, view, m)
     if "generalized_rush_larsen" in schemes and task["family"] != "CORPUS":
         checks.check_grl(prog, view, m, 1e-8, cut=cut)
+    if task["family"] in ("LAYOUT", "CORPUS") or task.get("opts", {}).get("real_jax"):
+        real_jax_runs(prog, view, m)
     prog.nontrivial = prog.stats.solver_s > 0
     return prog.result()
+
+
+def real_jax_runs(prog, view, m):
+    """The module must import and run for real, jitted and un-jitted, and agree with the reference (statement of C03)."""
+    from .. import refsem
+    from ..core import differs
+    inp = checks.sample_inputs(view, m)
+    env = checks.env_from_inputs(m, inp)
+    for fn, kind, names in (("rhs", "state", [n for n in m.assigns if m.derivative_of(n)]), ("monitor_values", "monitor", list(m.assigns))):
+        imap = view.index_map(kind)
+        for disable in (False, True):
+            tag = "unjitted" if disable else "jitted"
+            try:
+                out = view.concrete_jax(fn, inp, disable_jit=disable)
+            except Exception as e:
+                prog.fact(f"jax|real|{fn}|{tag}", False, "JaxRunFailed", f"{fn} ({tag}) failed for real: {str(e)[-300:]}")
+                continue
+            bad = []
+            for n in names:
+                key = m.derivative_of(n) if kind == "state" else n
+                try:
+                    ref = refsem.numeric(m.assigns[n], env, m)
+                except Exception:
+                    continue
+                if key in imap and imap[key] < len(out) and differs(out[imap[key]], ref, tol=1e-8):
+                    bad.append((n, out[imap[key]], float(ref)))
+            prog.fact(f"jax|real|{fn}|{tag}", not bad and len(out) == len(imap), "JaxValuesDiffer",
+                      f"{fn} ({tag}): length {len(out)} vs {len(imap)}; differing {bad[:3]} at {inp}")
 
 
 def work_split(prog, m, ode, comp_name):
